@@ -154,3 +154,16 @@ Theorem C05_translated_refused_add_field_changes_nothing :
   gen_add_field_st tags values t v = Ok (Err e, st) -> st = (tags, values).
 Proof. exact gen_add_field_refused_changes_nothing. Qed.
 Print Assumptions C05_translated_refused_add_field_changes_nothing.
+
+(* the remaining constructors / accessors of RtMessage AS TRANSLATED (with_capacity, new_deliberately_invalid,
+   num_fields, into_hash_map, clear): the message is its two vectors, into_hash_map pairs them up in order *)
+Require Import RV.Proofs.CodeSmall.
+Theorem C05_translated_accessors_are_model :
+  forall tags values n,
+  gen_msg_with_capacity n = Ok ([], [])
+  /\ gen_msg_new_deliberately_invalid tags values = Ok (tags, values)
+  /\ gen_msg_num_fields tags values = Ok (as_u32 (lenN tags))
+  /\ gen_msg_into_hash_map tags values = Ok (combine tags values)
+  /\ gen_msg_clear tags values = Ok ([], []).
+Proof. exact gen_msg_accessors_model. Qed.
+Print Assumptions C05_translated_accessors_are_model.
